@@ -90,8 +90,9 @@ TInit == /\ JInit /\ l = 1 /\ sync = FALSE
          /\ wq = <<>> /\ alive = Fn(FALSE) /\ flag = Fn(FALSE) /\ mown = Fn(NONE) /\ parked = Fn(FALSE)
          /\ notified = Fn(FALSE) /\ future = Fn(0) /\ woken = Fn(NONE) /\ resumed = Fn(-1)
          /\ sem = NONE /\ q = <<>> /\ pushed = <<>> /\ popped = <<>> /\ touchedDead = FALSE
+         /\ chain = <<>> /\ stk = Fn(<<>>) /\ nxt = Fn(-1) /\ twice = FALSE
 TNext ==
-   /\ l <= NTrace /\ l' = l + 1 /\ Consumed(l) /\ UNCHANGED <<prog, ip, pc, cur>>
+   /\ l <= NTrace /\ l' = l + 1 /\ Consumed(l) /\ UNCHANGED <<prog, ip, pc, cur, chain, stk, nxt, twice>>
    /\ LET ev == TraceLog[l] IN
       IF ev.e = "Reset" THEN Fresh /\ sync' = TRUE
       ELSE IF ~sync THEN UNCHANGED <<AllShared, sync>>
